@@ -349,6 +349,7 @@ def gen_rust():
             out.append('    fn try_reserve_items(&mut self, items: &[Self::Owned]) -> bool { self.reserve_items(items.iter()); true }')
         if c['serde']:
             out.append('    fn try_serde(&self) -> Option<Self> { Some(serde_generic(self)) }')
+            out.append('    fn try_state(&self) -> Option<U> { Some(crate::state::state_u(self)) }')
         if cmp_ok(e):
             out.append('    fn try_cmp(&self, i: Self::Index, a: bool, other: &Self, j: Self::Index, b: bool) -> Option<U> { Some(cmp_generic(self, i, a, other, j, b)) }')
         out.append('}')
